@@ -110,7 +110,17 @@ var spinDeadline int64 // unix nano; 0 = none
 func ctrlWait() bool {
 	n := 0
 	for turn != ctrlID {
-		runtime.Gosched()
+		if n < 4000 {
+			runtime.Gosched()
+		} else {
+			// the task has been running for a while (or the machine is oversubscribed): do not burn a core on waiting,
+			// and do not hammer the kernel with timers either: back off exponentially up to 200 microseconds
+			d := time.Duration(5<<uint((n-4000)/4)) * time.Microsecond
+			if d > 200*time.Microsecond || d <= 0 {
+				d = 200 * time.Microsecond
+			}
+			time.Sleep(d)
+		}
 		n++
 		if n&0xfff == 0 && spinDeadline != 0 && time.Now().UnixNano() > spinDeadline {
 			return false
